@@ -39,6 +39,14 @@ func checkC11(r *harness.Run) harness.Coverage {
 	docs := univ.Js(`null`, `{}`, `[]`, `1`, `"a"`, `true`, `[1]`, `[1,2]`, `[[1],[2]]`, `[{"a":1},{"a":null}]`, `[{"k":1},{"k":"a"}]`, `[{"k":1},{"k":2}]`,
 		`{"a":1}`, `{"a":null,"b":1}`, `{"a":[1,2],"b":[]}`, `{"a":[],"b":[1]}`, `{"a":{"a":1},"b":{}}`, `{"a":[{"k":1},{"k":"x"}],"b":0}`, `{"a":"","b":"x"}`,
 		`{"a":false,"b":true}`, `{"a":[[1]],"b":[[]]}`, `{"a":[null],"b":null}`, `[null]`, `[[]]`, `[{}]`, `{"a":{"b":[1]}}`, `{"b":{"a":[1,2]}}`, `[[1,2],[3]]`, `{"a":[{"a":[1]}]}`, `[0]`)
+	docs = append(docs, univ.Js(`[5,"x"]`, `[0,"a",2]`, `{"a":[5,"x"],"b":[2]}`, `{"a":[0,"x",2],"b":[1]}`, `[{"k":5},{"k":"x"}]`, `{"a":[{"k":5,"t":"n"},{"k":"x","t":"s"},{"k":-2,"t":"n"}],"b":1}`)...)
+	// errors that depend on the element: a failing element AFTER a succeeding one, and elements the
+	// filter condition excludes (which must then not be evaluated at all)
+	for _, e := range []string{"[?abs(@) > `1`] | [0]", "[?abs(@) > `1`]", "a[?abs(k) > `1`] | [0]", "a[?abs(k) > `1`].t | [0]", "[?@ < `1`].abs(@)", "a[?t == 'n'].abs(k)", "a[?t == 's'].abs(k)", "a[?abs(k) > `2`].t",
+		"[*].abs(@)", "a[*].abs(k) | [0]", "[].abs(@)", "a[?t == 'n'] | [*].abs(k)", "map(&abs(@), @)", "[?@ == `5`].abs(@) | [0]", "a[?k == `5`].abs(k)", "[abs([0]), abs([1])]", "not_null([0], abs([1]))",
+		"{x: abs([1]), x: [0]}", "{x: [0], x: abs([1])}", "[0] || abs([1])", "abs([1]) || [0]", "a[0].k || abs(a[1].k)", "[?abs(@) > `1`][0]", "a[?abs(k) > `1`][0].t"} {
+		exprs = append(exprs, exprFromText(e))
+	}
 	st := conform(r, exprs, docs, conformOpts{})
 	finishConform(r, st, len(exprs), len(docs))
 	sampleExprs(r, exprs, docs)
